@@ -8,9 +8,9 @@ CHECKS = {
     "C01": dict(level="exploration", technique="deterministic simulation (seeded clock/event-time search, exact-time delivery ledger + Kepler effect oracle, task-retry fault)",
                 text="seeded search over (start instant, step, event time, event kind, events per step, engines) with real scenarios; exact integer-time oracle for the delivery ledger, independent Kepler solution for the effect of impulses; sampled, not exhaustive",
                 note="trusts python integer/datetime arithmetic; two-body truth for the effect oracle; Julian-date resolution band of 100 us around a boundary accepts either adjacent step for times not exactly on it"),
-    "C02": dict(level="exploration", technique="deterministic simulation (network/geometry configuration search with run-built slew history; independent three-valued geometry oracle at every collectObservations call)",
+    "C02": dict(level="exploration", technique="deterministic simulation (network/geometry configuration search with run-built slew history, plus taskings issued by the harness acting as tasking engine; independent three-valued geometry oracle at every collectObservations call)",
                 text="full tasking runs over all sensor kinds, hosts, masks, FoVs, slew rates and ranges with targets placed by inverse geometry (azimuth seam, zenith, mask and FoV edges); every collectObservations call is captured (sensor state before the call, pointing, primary and background targets, returned records) and judged by rsim's own geodetic/topocentric geometry, FoV, mask, slew, line-of-sight, radar-equation and optical rules with guard bands",
-                note="trusts the repo's eci2ecef at the exact epoch (C04); low-precision analytic Sun with a 5e-4 rad band; miss reasons other than field of view / masks are rare because the engine only tasks pairs predicted visible"),
+                note="trusts the repo's eci2ecef at the exact epoch (C04); low-precision analytic Sun with a 5e-4 rad band; inside runs the engine only tasks pairs predicted visible, so most other miss reasons come from the 0-8 taskings the harness issues itself at the final epoch (any sensor to any target, drawn pointing error and prior mount state)"),
     "C03": dict(level="exploration", technique="deterministic simulation (step-size / run-split / start-shift relations, closed-form Kepler reference, batch re-propagation monitor)",
                 text="relations between ways of driving the clock (step dt vs dt/m, one call vs several, start shifted by k steps) on real truth runs, closed-form Kepler and conservation under two-body, per-call batch/bulk consistency monitor; sampled",
                 note="tolerances 1e-4 km / 1e-7 km/s for relations, 1e-3 km for Kepler over <= 1 day; trusts the force model itself (C13)"),
@@ -19,10 +19,10 @@ CHECKS = {
                 note="trusts python datetime/integer arithmetic as the calendar; synthetic EOP rows outside 2014-2022; two-body truth only"),
     "C07": dict(level="exploration", technique="deterministic simulation (run-time invariants at Decision/Reward endpoints of real runs, brute-force assignment oracle, relabelled twin runs)",
                 text="every Decision.calculate / Reward.calculate / normalisation call of generated runs (all policies, all reward classes, membership changes, priorities) is judged by brute force over all complete assignments (<= 5x4) and reference formulas; twin runs with permuted agent ids must give the permuted decisions",
-                note="matrix shapes and values are those runs produce; small-scope exhaustive enumeration over arbitrary matrices is outside this technique; ties accepted at 1e-12; relabel twins compared only while the optimum is unique"),
+                note="matrix shapes and values are those runs produce; small-scope exhaustive enumeration over arbitrary matrices is outside this technique; ties accepted at 1e-12; relabel twins compared only while the optimum is unique and the twin's reward matrix is the relabelled one (a difference with bit-identical prior states is a violation)"),
     "C08": dict(level="exploration", technique="deterministic simulation (seeded and per-batch-exhaustive completion-order / execution-order / task-retry exploration; conservation + cross-schedule equality oracles)",
                 text="each generated network case is run under a base schedule and a family of alternative schedules (every permutation of each batch with <= 4 jobs, LIFO, lazy/shuffled execution, random joint orders, task retry); per-run bookkeeping conservation and cross-schedule equality of everything a step produces",
-                note="noise is a function of (run seed, job ordinal); estimates compared at 1e-9 relative; rounding-tie decision flips counted indeterminate; one known finding (F11) keyed on sensors tasked in several jobs"),
+                note="noise is a function of (run seed, job ordinal); estimates compared at 1e-9 relative, posteriors of the same observations stacked in another order up to 100 eps cond(S) |update| (later steps then not compared); rounding-tie decision flips counted indeterminate; one known finding (F11) keyed on sensors tasked in several jobs"),
     "C09": dict(level="fault_enumeration", technique="deterministic simulation with fault injection (kill / interrupt / DB error at chosen statements and commits, worker death; SQL auditor on the durable file; commit-prefix oracle)",
                 text="clean runs over step/output-step/run-splitting/membership configurations are audited by SQL on a fresh connection; the same case is re-run with a fault injected at sampled (quick) or all (thorough, short cases) database statements and commits - hard kill in a forked process, KeyboardInterrupt, OperationalError (I/O error, disk full, locked), simulated worker death - and the durable state must equal the clean run's state after the last completed commit",
                 note="faults land between statements / before commits (SQLite's internal atomic commit is trusted); expected rows derive from in-memory states captured after every step"),
@@ -32,15 +32,15 @@ CHECKS = {
     "C11": dict(level="exploration", technique="deterministic simulation (seeded start/step/site search, exact-epoch inverse transform oracle)",
                 text="real runs over start instants at 1 s granularity, steps 2-3600 s, up to ~1.5 days, arbitrary sites; each epoch judged against the closed-form ellipsoid point using the exact epoch computed by the harness",
                 note="trusts the repo's eci2ecef at the exact instant (C04 is about the transform); 1 m / 1e-7 km/s tolerances"),
-    "C15": dict(level="exploration", technique="deterministic simulation (burn interval vs. step grid search, task retry; piecewise reference integration oracle)",
-                text="truth runs under special perturbations with one finite burn / maneuver placed relative to the step grid (inside a step, spanning steps, on boundaries, at the scenario start), judged at every epoch against a piecewise DOP853 reference that thrusts only inside the interval with rsim's own thrust formulas",
+    "C15": dict(level="exploration", technique="deterministic simulation (one or two thrust intervals vs. step grid search, task retry; piecewise reference integration oracle)",
+                text="truth runs under special perturbations with one finite burn / maneuver (40 %: a second one on the same target, back to back, after a pause or steps later) placed relative to the step grid (inside a step, spanning steps, on boundaries, at the scenario start), judged at every epoch against a piecewise DOP853 reference that thrusts only inside the interval with rsim's own thrust formulas",
                 note="trusts the repo's non-thrust acceleration (C13) and SciPy DOP853; tolerance scaled to the repo integrator's own accuracy"),
     "C16": dict(level="exploration", technique="deterministic simulation (job-completion-order exploration and importer-file angle re-representation / row shuffling; per-update monitor with independent wrap and circular-mean references)",
                 text="the order of simultaneous observations (completion order of task jobs, row order of an importer file) and the representation of stored azimuths (+-k turns, signed range) are the explored dimensions; each UKF update is judged as a function of (prior, observations), and every update is monitored against rsim's own wrapped difference and weighted circular mean; targets are placed on the 0/360 and 180 degree azimuths",
                 note="helper identities are exercised on values runs produce, not on all inputs; posterior tolerance 1e-9 relative + 100*eps*cond(S)*|update|, updates with cond(S) > 4e10 not judged"),
-    "C17": dict(level="exploration", technique="deterministic simulation (run-built innovation histories with varying dimension; lock-step reference detector; scaled-innovation monotonicity probe; task retry)",
+    "C17": dict(level="exploration", technique="deterministic simulation (run-built innovation histories with varying dimension and harness-driven histories up to 50 steps of dimension 1-8; lock-step reference detector; scaled-innovation monotonicity probe; task retry)",
                 text="full estimation runs with each detector kind and drawn thresholds / windows / fading factors over mixed optical/radar networks and unplanned impulses; a reference detector holding the (NIS, dimension) history is stepped on exactly the innovations and covariances the filter passes to the real detector",
-                note="scipy chi2.isf is the bound; near-bound calls indeterminate; histories up to 8 (quick) / 16 (thorough) steps; fading-memory dof with varying dimension accepts three readings"),
+                note="scipy chi2.isf is the bound; near-bound calls indeterminate; histories up to 8 (quick) / 16 (thorough) steps inside runs, up to 30 / 50 steps for detector objects the harness drives directly; fading-memory dof with varying dimension accepts three readings"),
     "C18": dict(level="exploration", technique="deterministic simulation (end-to-end MMAE runs driven by stored history and impulse size; reference Bayes rule in log space and mixture moments per adaptive update)",
                 text="full runs in which an unplanned impulse triggers detection, hypothesis generation from the stored observation/estimate history and several SMM / GPB1 updates until pruning or convergence; every adaptive update is compared with rsim's own prior x Gaussian-likelihood rule (with the documented underflow fallback), mixture mean and moment-matched covariance, and the hand-over at closure",
                 note="per-model UKF updates trusted here (C16 monitors them); model counts 2..31 as produced by gap/interval arithmetic; Lambert failures during initialisation are counted, not judged"),
